@@ -101,7 +101,8 @@ type scenario struct {
 	tee      int // 0 off, 1 TeeIn, 2 TeeOut, 3 both
 	explicit bool
 	state0   uint8
-	domain   int
+	domain   int // index of the domainpart of the session's OWN address (origin)
+	remote   int // index of the domainpart of the REMOTE address (location); may differ
 	others   []other
 	clear    [][]unit
 	prot     []pu
@@ -183,7 +184,8 @@ func parseUnit(s string) (unit, error) {
 }
 
 func parseScenario(f []string) (sc scenario, err error) {
-	// f = tee explicit domain state0 rr rt others clear prot oracle
+	// f = tee explicit domain remote state0 rr rt others clear prot oracle
+	// (lines written before the remote domain was added have one field less)
 	if len(f) < 10 {
 		return sc, fmt.Errorf("short run line")
 	}
@@ -191,6 +193,12 @@ func parseScenario(f []string) (sc scenario, err error) {
 	sc.explicit = f[1] == "1"
 	sc.domain, _ = strconv.Atoi(f[2])
 	sc.domain %= 4
+	sc.remote = sc.domain
+	if len(f) >= 11 {
+		sc.remote, _ = strconv.Atoi(f[3])
+		sc.remote %= 4
+		f = f[1:]
+	}
 	f = f[2:]
 	st, _ := strconv.Atoi(f[1])
 	sc.state0 = uint8(st)
@@ -251,21 +259,30 @@ func parseScenario(f []string) (sc scenario, err error) {
 
 // ---- concrete bytes ---------------------------------------------------------------------------
 
-func user(domain int) jid.JID   { return jid.MustParse("user@" + domains[domain]) }
-func server(domain int) jid.JID { return jid.MustParse(domains[domain]) }
+// originStr is the session's own address: user@domain, or the bare domain of a server
+// on an s2s stream.  location is the address of the remote entity.
+func (sc *scenario) originStr() string {
+	if sc.state0&uint8(xmpp.S2S) != 0 {
+		return domains[sc.domain]
+	}
+	return "user@" + domains[sc.domain]
+}
+func (sc *scenario) origin() jid.JID   { return jid.MustParse(sc.originStr()) }
+func (sc *scenario) location() jid.JID { return jid.MustParse(domains[sc.remote]) }
 
 func (u unit) bytes(sc *scenario) []byte {
 	ns := "jabber:client"
 	if sc.state0&uint8(xmpp.S2S) != 0 {
 		ns = "jabber:server"
 	}
-	dom := domains[sc.domain]
+	dom := domains[sc.remote] // the peer is the remote entity: its headers come from there
+	own := sc.originStr()
 	switch u.kind {
 	case 'H':
 		if u.ok {
 			switch u.variant % 3 {
 			case 0:
-				return []byte(fmt.Sprintf(`<?xml version='1.0'?><stream:stream xmlns='%s' xmlns:stream='http://etherx.jabber.org/streams' version='1.0' id='sid' from='%s' to='user@%s'>`, ns, dom, dom))
+				return []byte(fmt.Sprintf(`<?xml version='1.0'?><stream:stream xmlns='%s' xmlns:stream='http://etherx.jabber.org/streams' version='1.0' id='sid' from='%s' to='%s'>`, ns, dom, own))
 			case 1:
 				// no XML declaration, no 'to' (allowed by the negotiator)
 				return []byte(fmt.Sprintf(`<stream:stream xmlns='%s' xmlns:stream='http://etherx.jabber.org/streams' version='1.0' id='sid' from='%s'>`, ns, dom))
@@ -275,7 +292,7 @@ func (u unit) bytes(sc *scenario) []byte {
 		}
 		switch u.variant % 4 {
 		case 0: // wrong origin
-			return []byte(fmt.Sprintf(`<stream:stream xmlns='%s' xmlns:stream='http://etherx.jabber.org/streams' version='1.0' id='sid' from='evil.example' to='user@%s'>`, ns, dom))
+			return []byte(fmt.Sprintf(`<stream:stream xmlns='%s' xmlns:stream='http://etherx.jabber.org/streams' version='1.0' id='sid' from='evil.example' to='%s'>`, ns, own))
 		case 1: // no stream id
 			return []byte(fmt.Sprintf(`<stream:stream xmlns='%s' xmlns:stream='http://etherx.jabber.org/streams' version='1.0' from='%s'>`, ns, dom))
 		case 2: // unsupported version
@@ -648,7 +665,7 @@ func (c *ctx) exec(sc scenario, base *xmpp.StreamFeature) (res result) {
 	defer cancel()
 	ok := common.WithTimeout(10*time.Second, func() {
 		res.panicked = common.Recover(func() {
-			s, err = xmpp.NewSession(cctx, server(sc.domain), user(sc.domain), clientConn{w}, xmpp.SessionState(sc.state0), neg)
+			s, err = xmpp.NewSession(cctx, sc.location(), sc.origin(), clientConn{w}, xmpp.SessionState(sc.state0), neg)
 		})
 	})
 	out, tlsStart := w.snapshot()
